@@ -82,6 +82,14 @@ func (propC09) Gen(seed uint64, tier string, idx int) *Plan {
 			if r.Chance(500) {
 				newList = append(newList, target)
 			}
+			if r.Chance(300) {
+				// the new listing has as many entries as the old one but names one model twice (two digests)
+				// and drops another
+				newList = []string{fmt.Sprintf("filler-%d@sha256:aa", i), fmt.Sprintf("filler-%d@sha256:bb", i)}
+				for len(newList) < len(ep.Models) {
+					newList = append(newList, fmt.Sprintf("filler-%d@sha256:c%d", i, len(newList)))
+				}
+			}
 			ep.Listing = []Phase{{From: Always, Mode: "ok"}, {From: 5 * time.Second, Mode: "ok", Models: newList}}
 		}
 		ep.Default = Resp{Kind: "llm", Status: 200}
@@ -130,6 +138,8 @@ func (propC09) Gen(seed uint64, tier string, idx int) *Plan {
 			op.Path = "/olla/anthropic/v1/messages"
 			op.Body = BodySpec{Kind: "anthropic", N: 30, Model: model, Stream: r.Chance(300)}
 		}
+		// the length of the body may be undeclared (chunked): the model is named in it all the same
+		op.Body.Chunked = r.Chance(300)
 		p.Ops = append(p.Ops, op)
 	}
 	p.Deadline = 90 * time.Second
